@@ -162,90 +162,131 @@ def parseSci (s : String) : Rat :=
     | _ => base
   sg * v
 
-/-! ### writers / readers (lines) -/
+/-! ### writers / readers (lines)
+
+The line layer works on `List Char`; a line written by FEAT is `String.ofList` of its characters. -/
+
+def isBlank (c : Char) : Bool := c == ' '
+
+/-- `find_first_not_of(" ")`, `erase`, `find_first_of(" ")`: the first blank-separated token and the rest -/
+def tok1 (cs : List Char) : List Char × List Char :=
+  ((cs.dropWhile isBlank).takeWhile (fun c => !isBlank c), (cs.dropWhile isBlank).dropWhile (fun c => !isBlank c))
+
+/-- `atol` on a token (leading decimal digits; no sign needed here) -/
+def atolC (cs : List Char) : Nat :=
+  Nat.ofDigitChars 10 (cs.takeWhile Char.isDigit) 0
+
+/-- `operator<<` of an unsigned integer -/
+def natChars (n : Nat) : List Char := (toString n).toList
 
 def firstToken (s : String) : String × String :=
-  let cs := s.toList.dropWhile (· = ' ')
-  (String.ofList (cs.takeWhile (· ≠ ' ')), String.ofList (cs.dropWhile (· ≠ ' ')))
+  (String.ofList (tok1 s.toList).1, String.ofList (tok1 s.toList).2)
 
-/-- skip the banner line and `%` comment lines; returns the size line and the rest (`none` = abort) -/
+/-- `line.find(banner) != npos` -/
+def isPrefix : List Char → List Char → Bool
+  | [], _ => true
+  | _ :: _, [] => false
+  | a :: as, b :: bs => a == b && isPrefix as bs
+
+def containsSub (pat : List Char) : List Char → Bool
+  | [] => isPrefix pat []
+  | c :: cs => isPrefix pat (c :: cs) || containsSub pat cs
+
+/-- the loop skipping `%` comment lines; returns the size line and the rest (`none` = abort) -/
+def skipComments : List String → Option (String × List String)
+  | [] => none
+  | l :: ls =>
+    match l.toList.dropWhile isBlank with
+    | [] => none                      -- `line.at(npos)` throws
+    | ch :: _ => if ch = '%' then skipComments ls else some (l, ls)
+
+/-- banner line, then `%` comment lines; returns the size line and the rest (`none` = abort) -/
 def mtxHeader (banner : String) (lines : List String) : Option (String × List String) :=
   match lines with
   | [] => none
-  | l0 :: rest =>
-    if (l0.splitOn banner).length < 2 then none else
-    let rec skip : List String → Option (String × List String)
-      | [] => none
-      | l :: ls =>
-        match l.toList.dropWhile (· = ' ') with
-        | [] => none                      -- `line.at(npos)` throws
-        | ch :: _ => if ch = '%' then skip ls else some (l, ls)
-    skip rest
+  | l0 :: rest => if containsSub banner.toList l0.toList then skipComments rest else none
 
 def arrayBanner := "%%MatrixMarket matrix array real general"
 def coordBanner := "%%MatrixMarket matrix coordinate real general"
 
+/-- `a b` / `a b c` size lines -/
+def sizeLine2 (a b : Nat) : String := String.ofList (natChars a ++ ' ' :: natChars b)
+def sizeLine3 (a b c : Nat) : String := String.ofList (natChars a ++ ' ' :: (natChars b ++ ' ' :: natChars c))
+
+/-- first two numbers of a size line -/
+def parseSize2 (l : String) : Nat × Nat :=
+  (atolC (tok1 l.toList).1, atolC (tok1 (tok1 l.toList).2).1)
+
+def parseSize3 (l : String) : Nat × Nat × Nat :=
+  (atolC (tok1 l.toList).1, atolC (tok1 (tok1 l.toList).2).1, atolC (tok1 (tok1 (tok1 l.toList).2).2).1)
+
 variable {α : Type}
 
-def dvMtxWrite (pr : α → String) (vals : List α) : List String :=
-  [arrayBanner, s!"{vals.length} 1"] ++ vals.map pr
+/-- a line holding one value: the first token is handed to `atof` -/
+def parseVal (rd : String → α) (l : String) : α := rd (String.ofList (tok1 l.toList).1)
 
-/-- returns the `rows` values (missing ones stay uninitialised in the C++: `none` here) -/
+/-- `i j value` coordinate line (indices as written, 1-based) -/
+def fmtEntry (pr : α → String) (i j : Nat) (v : α) : String :=
+  String.ofList (natChars i ++ ' ' :: (natChars j ++ ' ' :: (pr v).toList))
+
+/-- coordinate line → 0-based (row, col, value): `atol`, `--row`, `--col`, `atof` -/
+def parseEntry (rd : String → α) (l : String) : Nat × Nat × α :=
+  (atolC (tok1 l.toList).1 - 1, atolC (tok1 (tok1 l.toList).2).1 - 1,
+   rd (String.ofList (tok1 (tok1 (tok1 l.toList).2).2).1))
+
+def dvMtxWrite (pr : α → String) (vals : List α) : List String :=
+  [arrayBanner, sizeLine2 vals.length 1] ++ vals.map pr
+
+/-- returns the `rows` values (a file with a different number of value lines leaves memory uninitialised or
+    overruns it in the C++: `none` here) -/
 def dvMtxRead (rd : String → α) (lines : List String) : Option (List α) :=
   match mtxHeader arrayBanner lines with
   | none => none
   | some (sz, body) =>
-    let (sr, r1) := firstToken sz
-    let (sc, _) := firstToken r1
-    if atol sc ≠ 1 then none else
-    if body.length ≠ atol sr then none else
-    some (body.map fun l => rd (firstToken l).1)
+    if (parseSize2 sz).2 ≠ 1 then none else
+    if body.length ≠ (parseSize2 sz).1 then none else
+    some (body.map (parseVal rd))
 
 def expWrite (pr : α → String) (vals : List α) : List String := vals.map pr
 
+/-- lines containing `#` are skipped; the rest of the line after leading blanks is handed to `atof` -/
 def expRead (rd : String → α) (lines : List String) : List α :=
-  (lines.filter fun l => (l.splitOn "#").length < 2).map fun l => rd (String.ofList (l.toList.dropWhile (· = ' ')))
+  (lines.filter fun l => !l.toList.contains '#').map fun l => rd (String.ofList (l.toList.dropWhile isBlank))
 
 def svMtxWrite (pr : α → String) (size : Nat) (idx : List Nat) (vals : List α) : List String :=
-  [coordBanner, s!"{size} 1 {vals.length}"] ++ (idx.zip vals).map fun (i, v) => s!"{i + 1} 1 {pr v}"
+  [coordBanner, sizeLine3 size 1 vals.length] ++ (idx.zip vals).map fun (i, v) => fmtEntry pr (i + 1) 1 v
 
 def svMtxRead (rd : String → α) (lines : List String) : Option (Nat × List Nat × List α) :=
   match mtxHeader coordBanner lines with
   | none => none
   | some (sz, body) =>
-    let (sr, r1) := firstToken sz
-    let (sc, r2) := firstToken r1
-    let (sn, _) := firstToken r2
-    if atol sc ≠ 1 then none else
-    if body.length ≠ atol sn then none else
-    let ents := body.map fun l =>
-      let (si, q1) := firstToken l
-      let (_, q2) := firstToken q1
-      let (sv, _) := firstToken q2
-      (atol si - 1, rd sv)
-    some (atol sr, ents.map (·.1), ents.map (·.2))
+    if (parseSize3 sz).2.1 ≠ 1 then none else
+    if body.length ≠ (parseSize3 sz).2.2 then none else
+    some ((parseSize3 sz).1, body.map (fun l => (parseEntry rd l).1), body.map (fun l => (parseEntry rd l).2.2))
 
 def dmMtxWrite (pr : α → String) (r c : Nat) (vals : List α) : List String :=
-  [arrayBanner, s!"{r} {c} {r * c}"] ++ vals.map pr
+  [arrayBanner, sizeLine3 r c (r * c)] ++ vals.map pr
 
 def dmMtxRead (rd : String → α) (lines : List String) : Option (Nat × Nat × List α) :=
   match mtxHeader arrayBanner lines with
   | none => none
   | some (sz, body) =>
-    let (sr, r1) := firstToken sz
-    let (sc, _) := firstToken r1
-    if atol sr = 0 ∨ atol sc = 0 then none else
-    if body.length ≠ atol sr * atol sc then none else
-    some (atol sr, atol sc, body.map fun l => rd (firstToken l).1)
+    if (parseSize2 sz).1 = 0 ∨ (parseSize2 sz).2 = 0 then none else
+    if body.length ≠ (parseSize2 sz).1 * (parseSize2 sz).2 then none else
+    some ((parseSize2 sz).1, (parseSize2 sz).2, body.map (parseVal rd))
 
-/-- `SparseMatrixCSR::write_out(fm_mtx)`, general format: row loop over `row_ptr` -/
-def csrMtxWrite (pr : α → String) (rows cols : Nat) (rowPtr colInd : List Nat) (vals : List α) (dflt : α) :
-    List String :=
-  [coordBanner, s!"{rows} {cols} {vals.length}"] ++
+/-- the entries in the order `SparseMatrixCSR::write_out(fm_mtx)` visits them (0-based): row loop over
+    `row_ptr`, inner loop `i = row_ptr[row] … row_ptr[row+1]` -/
+def csrEntries (rows : Nat) (rowPtr colInd : List Nat) (vals : List α) (dflt : α) : List (Nat × Nat × α) :=
   (List.range rows).flatMap fun row =>
     (List.range (rowPtr.getD (row + 1) 0 - rowPtr.getD row 0)).map fun k =>
-      let i := rowPtr.getD row 0 + k
-      s!"{row + 1} {colInd.getD i 0 + 1} {pr (vals.getD i dflt)}"
+      (row, colInd.getD (rowPtr.getD row 0 + k) 0, vals.getD (rowPtr.getD row 0 + k) dflt)
+
+/-- `SparseMatrixCSR::write_out(fm_mtx)`, general format -/
+def csrMtxWrite (pr : α → String) (rows cols : Nat) (rowPtr colInd : List Nat) (vals : List α) (dflt : α) :
+    List String :=
+  [coordBanner, sizeLine3 rows cols vals.length] ++
+    (csrEntries rows rowPtr colInd vals dflt).map fun e => fmtEntry pr (e.1 + 1) (e.2.1 + 1) e.2.2
 
 /-- insertion into `std::map<IT_, DT_>` (`insert` keeps the first value of a duplicate key) -/
 def colInsert (c : Nat) (v : α) : List (Nat × α) → List (Nat × α)
@@ -280,23 +321,22 @@ def csrFill (rows : Nat) : Nat → Nat → List (Nat × List (Nat × α)) → Li
       let (rp, ci, vs) := csrFill rows n idx []
       (idx :: rp, ci, vs)
 
+/-- the part of the reader after the lines were parsed: fill `std::map<row, std::map<col, val>>`, then build
+    `row_ptr` (last entry = number of lines), `col_ind`, `val` -/
+def csrAssemble (rows : Nat) (ents : List (Nat × Nat × α)) : List Nat × List Nat × List α :=
+  ((csrFill rows rows 0 (ents.foldl (fun m e => rowInsert e.1 e.2.1 e.2.2 m) [])).1 ++ [ents.length],
+   (csrFill rows rows 0 (ents.foldl (fun m e => rowInsert e.1 e.2.1 e.2.2 m) [])).2.1,
+   (csrFill rows rows 0 (ents.foldl (fun m e => rowInsert e.1 e.2.1 e.2.2 m) [])).2.2)
+
 /-- result: rows, cols, `ue` (line count), row_ptr, col_ind, val.  `col_ind`/`val` have `ue` slots in the
     C++; the model returns the filled prefix. -/
 def csrMtxRead (rd : String → α) (lines : List String) : Option (Nat × Nat × Nat × List Nat × List Nat × List α) :=
   match mtxHeader coordBanner lines with
   | none => none
   | some (sz, body) =>
-    let (sr, r1) := firstToken sz
-    let (sc, _) := firstToken r1
-    let rows := atol sr
-    let cols := atol sc
-    let entries := body.foldl (fun m l =>
-      let (si, q1) := firstToken l
-      let (sj, q2) := firstToken q1
-      let (sv, _) := firstToken q2
-      rowInsert (atol si - 1) (atol sj - 1) (rd sv) m) []
-    let ue := body.length
-    let (rp, ci, vs) := csrFill rows rows 0 entries
-    some (rows, cols, ue, rp ++ [ue], ci, vs)
+    some ((parseSize2 sz).1, (parseSize2 sz).2, body.length,
+      (csrAssemble (parseSize2 sz).1 (body.map (parseEntry rd))).1,
+      (csrAssemble (parseSize2 sz).1 (body.map (parseEntry rd))).2.1,
+      (csrAssemble (parseSize2 sz).1 (body.map (parseEntry rd))).2.2)
 
 end FeatModel.TextIO
